@@ -51,3 +51,83 @@ def run_script(mc: int, fe, es, rates: list[float], pop: int = 2):
         res = o.optimize(task)
     fits = [[a.fitness for a in g.agents] for g in res.evolution]
     return o.steps, len(res.evolution), list(res.rates), fits
+
+
+# ----------------------------------------------------------------------------- scripted optimizer for the two drivers
+import json as _json  # noqa: E402
+import os as _os  # noqa: E402
+
+
+class DriverCfg(BaseOptimizationConfig):
+    population_size: int = 2
+    max_cycles: int = 1
+    fitness_error: float | None = None
+    ka: int = 0
+    kb: int = 0
+    kc: int = 0
+
+
+def point_key(params: dict) -> str:
+    return _json.dumps({k: int(v) for k, v in sorted(params.items())}, sort_keys=True)
+
+
+class DriverTask(Task):
+    """objective = the score the scripted optimizer was told to produce for this run"""
+
+    def objective_function(self, x):
+        return float(self.data.get("score", 0.0))
+
+
+class DriverTaskB(DriverTask):
+    pass
+
+
+class DriverTaskC(DriverTask):
+    pass
+
+
+class DriverOpt(OptimizationAbstract):
+    """Every optimize() call claims the next trial slot of its parameter point (O_EXCL file, works across the
+    processes of the drivers' pools), logs what it saw (parameters, mode, workers, task class) and produces the
+    scripted best cost table[key][slot]."""
+
+    def set_config_parameters(self, parameters):
+        self._config = DriverCfg(**parameters)
+
+    def _params(self):
+        return {k: getattr(self._config, k) for k in ("ka", "kb", "kc") if k in self._config.model_fields_set}
+
+    def before_initialization(self):
+        d = self._task.data
+        key = point_key(self._params())
+        tag = f"{type(self).__name__}|{type(self._task).__name__}|{key}"
+        h = __import__("hashlib").sha1(tag.encode()).hexdigest()[:16]
+        slot = 0
+        while True:
+            try:
+                fd = _os.open(_os.path.join(d["dir"], f"slot-{h}-{slot}"), _os.O_CREAT | _os.O_EXCL | _os.O_WRONLY, 0o600)
+                _os.close(fd)
+                break
+            except FileExistsError:
+                slot += 1
+        table = d.get("table", {})
+        row = table.get(key, [0])
+        self._task.data["score"] = row[slot] if slot < len(row) else row[-1]
+        line = _json.dumps({"opt": type(self).__name__, "task": type(self._task).__name__, "key": key, "slot": slot,
+                            "mode": str(self._mode), "workers": self._workers, "pid": _os.getpid()}) + "\n"
+        fd = _os.open(_os.path.join(d["dir"], "calls.ndjson"), _os.O_WRONLY | _os.O_APPEND | _os.O_CREAT, 0o600)
+        try:
+            _os.write(fd, line.encode())
+        finally:
+            _os.close(fd)
+
+    def optimization_step(self):
+        self._population = [self._init_agent() for _ in range(self._config.population_size)]
+
+
+class DriverOptB(DriverOpt):
+    pass
+
+
+class DriverOptC(DriverOpt):
+    pass
